@@ -137,6 +137,9 @@ func (tx *Transaction) Deserialization(source *common.ZeroCopySource) error {
 	if eof {
 		return errors.New("[Deserialization] read sigs length error")
 	}
+	if l > source.Len() {
+		return fmt.Errorf("[Deserialization] sigs length %d exceeds remaining data", l)
+	}
 	sigs := make([]Sig, l)
 	for i := 0; i < int(l); i++ {
 		var sig Sig
